@@ -39,8 +39,11 @@ pub(crate) struct CommitOracle {
 }
 
 struct OracleInner {
-	// xxh3_64(key) -> commit_seq of the most recent writer of that key.
-	recent_writes: HashMap<u64, u64>,
+	// xxh3_64(key) -> (commit_seq of the most recent writer of that key,
+	// the stamp that writer overwrote, 0 if there was none). The second
+	// component exists only so that `rollback` can put the overwritten stamp
+	// back instead of forgetting that an earlier transaction committed the key.
+	recent_writes: HashMap<u64, (u64, u64)>,
 
 	// The smallest seq still represented in the map: every commit at
 	// `seq >= kept_since` is recorded. A txn with `start_seq < kept_since`
@@ -100,7 +103,7 @@ impl CommitOracle {
 			return Err(Error::TransactionRetry);
 		}
 		for k in keys {
-			if let Some(&committed) = g.recent_writes.get(&fp(k)) {
+			if let Some(&(committed, _)) = g.recent_writes.get(&fp(k)) {
 				if committed > start_seq {
 					return Err(Error::TransactionWriteConflict);
 				}
@@ -131,7 +134,14 @@ impl CommitOracle {
 		let mut g = self.inner.lock();
 		let stamp = seq_num + count - 1;
 		for k in keys {
-			g.recent_writes.insert(fp(k), stamp);
+			let fk = fp(k);
+			let previous = match g.recent_writes.get(&fk) {
+				// duplicate key inside this batch: keep what the first insert overwrote
+				Some(&(current, previous)) if current == stamp => previous,
+				Some(&(current, _)) => current,
+				None => 0,
+			};
+			g.recent_writes.insert(fk, (stamp, previous));
 		}
 
 		// `saturating_add` so the counter doesn't overflow if the watermark
@@ -166,15 +176,18 @@ impl CommitOracle {
 			}
 			g.commits_since_gc = 0;
 			g.kept_since = oldest_active;
-			g.recent_writes.retain(|_, v| *v >= oldest_active);
+			g.recent_writes.retain(|_, v| v.0 >= oldest_active);
 		}
 	}
 
 	/// Roll back oracle entries reserved by a transaction whose commit
 	/// path failed AFTER `publish` (typically because `apply` errored).
 	///
-	/// Removes entries only when their stamp still equals `my_seq` — i.e.
-	/// when *we* are still the most recent writer of that fingerprint. If
+	/// Touches entries only when their stamp still equals `my_seq` — i.e.
+	/// when *we* are still the most recent writer of that fingerprint — and
+	/// then puts back the stamp our `publish` overwrote (an earlier committer
+	/// of the same key must keep guarding it), or removes the entry if there
+	/// was none. If
 	/// a concurrent transaction has already overwritten an entry with a
 	/// higher seq, leaves it alone (their stamp wins).
 	///
@@ -199,9 +212,15 @@ impl CommitOracle {
 		let mut g = self.inner.lock();
 		for k in keys {
 			let fk = fp(k);
-			if let Some(&v) = g.recent_writes.get(&fk) {
+			if let Some(&(v, previous)) = g.recent_writes.get(&fk) {
 				if v == my_seq {
-					g.recent_writes.remove(&fk);
+					if previous >= g.kept_since && previous != 0 {
+						// An earlier transaction committed this key inside the window
+						// the map still covers: its stamp must keep guarding the key.
+						g.recent_writes.insert(fk, (previous, 0));
+					} else {
+						g.recent_writes.remove(&fk);
+					}
 				}
 			}
 		}
@@ -237,7 +256,7 @@ impl CommitOracle {
 	#[cfg(surrealkv_verif)]
 	pub(crate) fn verif_state(&self) -> (Vec<(u64, u64)>, u64, u32) {
 		let g = self.inner.lock();
-		let mut entries: Vec<(u64, u64)> = g.recent_writes.iter().map(|(k, v)| (*k, *v)).collect();
+		let mut entries: Vec<(u64, u64)> = g.recent_writes.iter().map(|(k, v)| (*k, v.0)).collect();
 		entries.sort_unstable();
 		(entries, g.kept_since, g.commits_since_gc)
 	}
